@@ -353,6 +353,7 @@ def run_sliding(desc):
         ParzenWindowClassifier(classes=[0, 1, 2], metric_dict={"gamma": 0.5}, random_state=0)
     swc = SlidingWindowClassifier(inner(), classes=[0, 1, 2], window_size=w, only_labeled=ol, random_state=0)
     use_w = bool((desc["seed"] >> 3) % 2)
+    mixed_w = bool((desc["seed"] >> 5) % 2)
     ref = collections.deque(maxlen=w)
     viol = []
     ops = []
@@ -369,6 +370,8 @@ def run_sliding(desc):
             op = "fit"
         X, y = _data(rng, "clf", n=int(rng.randint(1, 6)))
         sw = np.round(rng.rand(len(X)) + 0.2, 2) if use_w else None
+        if use_w and mixed_w and rng.rand() < 0.4:
+            sw = None          # a call without weights in a weighted history: the stored weights are dropped (count as one)
         try:
             steps.begin()
             if sw is None:
@@ -387,10 +390,13 @@ def run_sliding(desc):
         ops.append((op, len(X), int(np.isnan(y).sum())))
         if op == "fit":
             ref = collections.deque(maxlen=w)
+        if use_w and sw is None:
+            # documented behaviour: a call without sample_weight drops the stored weights (every stored sample counts once)
+            ref = collections.deque([(t[0], t[1], 1.0) for t in ref], maxlen=w)
         for i in range(len(X)):
             if ol and np.isnan(y[i]):
                 continue
-            ref.append((X[i], y[i], None if sw is None else sw[i]))
+            ref.append((X[i], y[i], (1.0 if use_w else None) if sw is None else sw[i]))
         contracts.count("C13.sliding-window-reference-model")
         if st.params_fp(swc) != p0:
             viol.append({"component": "SlidingWindowClassifier", "kind": "get_params-changed-by-%s" % op, "trigger": "any", "detail": "ops %s" % ops})
